@@ -466,7 +466,94 @@ def check_mapping(r, ctx):
         ctx.nontrivial()
 
 
+# ------------------------------------------------------------------------------------------------ exact grid
+def s_grid(tier):
+    ob = st.tuples(st.integers(-6, 30), st.integers(-6, 30), st.integers(1, 8), st.integers(1, 6)).map(list)
+    pt = st.tuples(st.integers(-4, 28), st.integers(-4, 28)).map(list)
+    return st.fixed_dictionaries({"lanes": st.integers(1, 3), "L": st.integers(2, 6), "w": st.integers(1, 3),
+                                  "mid": st.booleans(), "obs": st.lists(ob, min_size=1, max_size=5),
+                                  "pts": st.lists(pt, min_size=1, max_size=8)})
+
+
+def check_grid(r, ctx):
+    """Axis-parallel lanes and rectangles on a half-integer grid: every number is exact in floating point, so the closed
+    sets (touching counts as intersecting, boundary points are contained) are decided exactly with integers."""
+    n, L2, w2 = r["lanes"], 4 * r["L"], 2 * r["w"]          # doubled coordinates: lane j = [0, L2] x [j*w2, (j+1)*w2]
+    xs = [0, L2 // 2, L2] if r["mid"] else [0, L2]
+    lanelets = []
+    for j in range(n):
+        y0, y1 = j * w2 / 2.0, (j + 1) * w2 / 2.0
+        lanelets.append(gs.build_lanelet({"id": 10 + j, "left": [[x / 2.0, y1] for x in xs],
+                                          "right": [[x / 2.0, y0] for x in xs],
+                                          "center": [[x / 2.0, 0.5 * (y0 + y1)] for x in xs], "pred": [], "succ": []}))
+    with warnings.catch_warnings():
+        warnings.simplefilter("ignore")
+        ln = LaneletNetwork.create_from_lanelet_list(lanelets)
+        lanes = {10 + j: (0, L2, j * w2, (j + 1) * w2) for j in range(n)}
+
+        def overlaps(box, lane):     # closed boxes in doubled coordinates
+            return box[0] <= lane[1] and lane[0] <= box[1] and box[2] <= lane[3] and lane[2] <= box[3]
+        objs, boxes = [], {}
+        for i, (cx2, cy2, l2, wd2) in enumerate(r["obs"]):
+            # rectangle with centre (cx2/2, cy2/2), length l2, width wd2 (doubled half-extents l2, wd2), orientation 0
+            rec = {"role": "static", "id": 900 + i, "type": "PARKED_VEHICLE",
+                   "shape": {"k": "rect", "l": float(l2), "w": float(wd2), "c": None, "o": None},
+                   "init": {"cls": "InitialState", "t": 0, "a": {"position": [cx2 / 2.0, cy2 / 2.0], "orientation": 0.0,
+                                                                "velocity": 0.0, "acceleration": 0.0, "yaw_rate": 0.0,
+                                                                "slip_angle": 0.0}}}
+            objs.append(gs.build_obstacle(rec))
+            boxes[900 + i] = (cx2 - l2, cx2 + l2, cy2 - wd2, cy2 + wd2)
+        truth = {lid: {oid for oid, b in boxes.items() if overlaps(b, lane)} for lid, lane in lanes.items()}
+        touching = any(overlaps(b, lane) and (b[0] == lane[1] or b[1] == lane[0] or b[2] == lane[3] or b[3] == lane[2])
+                       for b in boxes.values() for lane in lanes.values())
+        mapping = ln.map_obstacles_to_lanelets(objs)
+        for lid in lanes:
+            got = {o.obstacle_id for o in mapping.get(lid, [])}
+            if got != truth[lid]:
+                raise Violation("grid-map-obstacles-to-lanelets", "lanelet %d %r: got %r, exact truth %r; boxes %r" % (
+                    lid, lanes[lid], sorted(got), sorted(truth[lid]), boxes))
+            got = {o.obstacle_id for o in ln.find_lanelet_by_id(lid).get_obstacles(objs, 0)}
+            if got != truth[lid]:
+                raise Violation("grid-get-obstacles", "lanelet %d %r: got %r, exact truth %r; boxes %r" % (
+                    lid, lanes[lid], sorted(got), sorted(truth[lid]), boxes))
+        inside = set().union(*truth.values())
+        got = sorted(o.obstacle_id for o in ln.filter_obstacles_in_network(objs))
+        if got != sorted(inside):
+            raise Violation("grid-filter-obstacles-in-network", "got %r, exact truth %r" % (got, sorted(inside)))
+        for o in objs:
+            got = set(ln.find_lanelet_by_shape(o.occupancy_at_time(0).shape))
+            exp = {lid for lid in lanes if o.obstacle_id in truth[lid]}
+            if got != exp:
+                raise Violation("grid-shape-lookup", "obstacle box %r: got %r, exact truth %r" % (
+                    boxes[o.obstacle_id], sorted(got), sorted(exp)))
+        pts = [[x2 / 2.0, y2 / 2.0] for x2, y2 in r["pts"]]
+        res = ln.find_lanelet_by_position([np.array(p) for p in pts])
+        on_boundary = False
+        for (x2, y2), p, ids in zip(r["pts"], pts, res):
+            exp = {lid for lid, la in lanes.items() if la[0] <= x2 <= la[1] and la[2] <= y2 <= la[3]}
+            on_boundary = on_boundary or any(x2 in (la[0], la[1]) or y2 in (la[2], la[3]) for lid, la in lanes.items()
+                                             if lid in exp)
+            if set(ids) != exp or len(ids) != len(set(ids)):
+                raise Violation("grid-position-lookup", "point %r: got %r, exact truth %r" % (p, sorted(ids),
+                                                                                              sorted(exp)))
+            for la in ln.lanelets:
+                c = bool(la.contains_points(np.array([p, p]))[0])
+                if c != (la.lanelet_id in exp):
+                    raise Violation("grid-contains-points", "lanelet %d, point %r: %r, exact truth %r" % (
+                        la.lanelet_id, p, c, la.lanelet_id in exp))
+    if touching:
+        ctx.label("touching-only-contact")
+    if on_boundary:
+        ctx.label("point-on-boundary")
+    if touching or on_boundary:
+        ctx.nontrivial()
+
+
 FACETS = [
+    Facet("grid-exact", check_grid, strategy=s_grid, quick=3000, thorough=100000,
+          rule="1-3 axis-parallel lanes and up to 5 axis-parallel rectangles on a half-integer grid, grid query points: "
+               "all lookups and obstacle mappings vs exact integer truth for the closed sets (touching counts, boundary "
+               "points are contained); non-trivial = a touching-only contact or a point on a boundary"),
     Facet("position-lookup", check_position, strategy=s_position, quick=2400, thorough=120000,
           rule="networks of 1-6 lanelets (chains, neighbours sharing a boundary, crossing, far apart) built by 9 routes "
                "(list, add, scenario, scenario+network, deepcopy, pickle, create_from_lanelet_network, XML, protobuf) x 1-8 points (inside, on "
